@@ -34,7 +34,9 @@ CHECKS = {
     "C04": ("model_checking",
             "The hash is specified as a function of the position (spec/Hash.tla over the key table exported from the "
             "running code); TLC evaluates 'all 794 keys distinct and non-zero' on that table, and every explored/recorded "
-            "position's incremental hash must equal the specified value and the twin's.", TECH, "5/C04", NOTE),
+            "position's incremental hash must equal the specified value and the twin's; equal positions observed by any route "
+            "must carry equal hashes (independent of the transcribed formula). The incremental update scheme itself is "
+            "transcribed (spec/HashSys.tla) and model-checked against the from-scratch hash over the game state machine.", TECH, "5/C04", NOTE),
     "C05": ("model_checking",
             "ToFEN of the specification is the reference text: for every explored position the writer must produce it "
             "byte for byte, the parser must accept it and return the identical board (fields, hash, caches), "
